@@ -30,7 +30,89 @@ def load_props():
     return ns["PROPS"], ns.get("COMMON_ASSUMPTIONS", [])
 
 
+_TREE_HASH = {}
+
+
+def tree_hash():
+    """content hash of everything a verdict depends on: the repository sources, the sidecar contracts, the engine"""
+    if "h" not in _TREE_HASH:
+        h = hashlib.sha256()
+        roots = [(os.path.join(REPO, "msmart"), True), (os.path.join(HERE, "contracts"), False), (os.path.join(HERE, "pyvc"), False)]
+        for root, skip_tests in roots:
+            for dp, dn, fn in sorted(os.walk(root)):
+                dn.sort()
+                if skip_tests and os.path.basename(dp) == "tests":
+                    continue
+                for f in sorted(fn):
+                    if not f.endswith(".py") or (skip_tests and f.startswith("test_")):
+                        continue
+                    fp = os.path.join(dp, f)
+                    h.update(os.path.relpath(fp, root).encode())
+                    h.update(b"\0")
+                    with open(fp, "rb") as fh:
+                        h.update(fh.read())
+                    h.update(b"\0")
+        h.update(z3_version().encode())
+        _TREE_HASH["h"] = h.hexdigest()
+    return _TREE_HASH["h"]
+
+
+def prune_cache(max_bytes=400 << 20):
+    """keep the result cache small: entries of other trees are dead weight (oldest first)"""
+    cdir = os.path.join(HERE, ".work", "cache")
+    try:
+        ents = [(e.stat().st_mtime, e.stat().st_size, e.path) for e in os.scandir(cdir) if e.is_file()]
+    except OSError:
+        return
+    total = sum(sz for _, sz, _ in ents)
+    for _, sz, path in sorted(ents):
+        if total <= max_bytes:
+            break
+        try:
+            os.remove(path)
+            total -= sz
+        except OSError:
+            pass
+
+
+def z3_version():
+    import z3
+    return z3.get_version_string()
+
+
 def worker(args):
+    """verify one target; the result is stored under the content hash of (sources, contracts, engine, target, budgets), so the
+    same verification problem is solved once per working tree even when several property checks need it (PYVC_NO_CACHE=1 disables)"""
+    target, timeout_ms, want_smt2 = args
+    use_cache = os.environ.get("PYVC_NO_CACHE", "0") != "1"
+    cfile = None
+    if use_cache:
+        key = hashlib.sha256(json.dumps([tree_hash(), target, timeout_ms, bool(want_smt2), os.environ.get("PYVC_TARGET_BUDGET_S", ""),
+                                         os.environ.get("PYTHONHASHSEED", "")]).encode()).hexdigest()
+        cdir = os.path.join(HERE, ".work", "cache")
+        cfile = os.path.join(cdir, key + ".json")
+        if os.path.exists(cfile):
+            try:
+                with open(cfile) as fh:
+                    out = json.load(fh)
+                out["cached"] = True
+                return out
+            except Exception:       # noqa  (a torn file: recompute)
+                pass
+    out = worker_compute(args)
+    if cfile is not None and not out.get("error"):
+        try:
+            os.makedirs(os.path.dirname(cfile), exist_ok=True)
+            tmp = cfile + f".{os.getpid()}.tmp"
+            with open(tmp, "w") as fh:
+                json.dump(out, fh)
+            os.replace(tmp, cfile)
+        except Exception:       # noqa
+            pass
+    return out
+
+
+def worker_compute(args):
     """verify one target in a fresh process; returns plain data"""
     target, timeout_ms, want_smt2 = args
     import z3
@@ -215,6 +297,7 @@ def main(argv=None):
     a = ap.parse_args(argv)
     seed = int(os.environ.get("VERIF_SEED", "0") or 0)
     t0 = time.time()
+    prune_cache()
     PROPS, COMMON = load_props()
     if a.pid not in PROPS:
         print(f"unknown property {a.pid}")
@@ -338,7 +421,7 @@ def main(argv=None):
         if r.get("partial"):
             lines.append(f"NOTE {r['target']}: {r['partial']}")
         funcs.append({"target": r["target"], "paths": r["paths"], "outcomes": r["outcomes"], "obligations": len(r["obligations"]),
-                      "secs": r["secs"], "covers_sat": r["covers_sat"]})
+                      "secs": r["secs"], "covers_sat": r["covers_sat"], "from_cache": bool(r.get("cached"))})
         asm |= set(r["assumptions"])
         if not r["obligations"]:
             engine_err.append(f"{r['target']}: zero obligations generated (vacuous)")
@@ -438,6 +521,9 @@ def main(argv=None):
             "samples": samples or [{"note": "no discharged obligation"}],
             "backends": {"z3": "z3-solver 5.1.0 (python API), one query per obligation", **({"cvc5_second_opinion": cvc5_n} if thorough else {})},
             "solver_time_s": round(sum(ob["secs"] for r in results for ob in r["obligations"]), 2),
+            "result_cache": (f"{sum(1 for r in results if r.get('cached'))} of {len(results)} targets were taken from the content-addressed result cache of this working tree "
+                             "(.work/cache: key = hash of the repository sources, the sidecar contracts, the engine, the solver version, the target and its budgets; "
+                             "a hit is the stored result of exactly this verification problem, computed earlier by another property's check; PYVC_NO_CACHE=1 recomputes)"),
             "undecided": undecided, "engine_errors": engine_err,
             "bounded_standins": P.get("bounded", []) + ([f"CPython cross-check of the interpreter on concrete inputs (bounded, engine self-test): {xcheck_txt}"] if xcheck_txt else []),
             "canaries": canary,
